@@ -6,26 +6,28 @@ namespace CC.ArraySized
 open CC CC.Gen
 
 /-! ### allocator ledger facts -/
-/-- the ledger is where it was: same number of live blocks, same fault flag -/
-def MemSame (m m' : Mem) : Prop := m'.live = m.live ∧ m'.fault = m.fault
+/-- the ledger is where it was: same number of live blocks, same fault flag, and nothing went
+through the C library allocator -/
+def MemSame (m m' : Mem) : Prop := m'.live = m.live ∧ m'.fault = m.fault ∧ m'.libc = m.libc
 
-theorem MemSame.refl (m : Mem) : MemSame m m := ⟨rfl, rfl⟩
+theorem MemSame.refl (m : Mem) : MemSame m m := ⟨rfl, rfl, rfl⟩
 theorem MemSame.trans {a b c : Mem} (h1 : MemSame a b) (h2 : MemSame b c) : MemSame a c :=
-  ⟨h2.1.trans h1.1, h2.2.trans h1.2⟩
+  ⟨h2.1.trans h1.1, h2.2.1.trans h1.2.1, h2.2.2.trans h1.2.2⟩
 
 theorem memSame_check (m : Mem) (b : Bool) (hb : b = true) : MemSame m (m.check b) := by
   subst hb; exact MemSame.refl m
 
-theorem free_of_pos (m : Mem) (h : 0 < m.live) : m.free.live = m.live - 1 ∧ m.free.fault = m.fault := by
+theorem free_of_pos (m : Mem) (h : 0 < m.live) :
+    m.free.live = m.live - 1 ∧ m.free.fault = m.fault ∧ m.free.libc = m.libc := by
   unfold Mem.free
   rw [if_neg (by omega)]
-  exact ⟨rfl, rfl⟩
+  exact ⟨rfl, rfl, rfl⟩
 
 /-- allocate one block, release another one: the ledger is balanced -/
 theorem memSame_alloc_free (m : Mem) (h : m.alloc.1 = true) : MemSame m m.alloc.2.free := by
   have e := Mem.alloc_fst_true m h
   have f := free_of_pos m.alloc.2 (by omega)
-  exact ⟨by rw [f.1, e.1]; omega, by rw [f.2, e.2.1]⟩
+  exact ⟨by rw [f.1, e.1]; omega, by rw [f.2.1, e.2.1], by rw [f.2.2, e.2.2]⟩
 
 /-! ### expand_capacity -/
 theorem cap_le_max (a : ArraySized) (h : a.Inv) : a.capacity ≤ CC_MAX_ELEMENTS :=
@@ -45,9 +47,10 @@ theorem expandCapacity_spec (a : ArraySized) (m : Mem) (h : a.Inv) :
     ((a.expandCapacity m).1 = .ok ∧ (a.expandCapacity m).2.1.Inv ∧
       (a.expandCapacity m).2.1.abs = a.abs ∧ (a.expandCapacity m).2.1.size = a.size ∧
       (a.expandCapacity m).2.1.dataLen = a.dataLen ∧ (a.expandCapacity m).2.1.grow = a.grow ∧
-      a.capacity < (a.expandCapacity m).2.1.capacity ∧ MemSame m (a.expandCapacity m).2.2 ∧ m.alloc.1 = true) ∨
+      a.capacity < (a.expandCapacity m).2.1.capacity ∧ MemSame m (a.expandCapacity m).2.2 ∧ m.alloc.1 = true ∧
+      ¬ a.AtLimit ∧ (a.expandCapacity m).2.1.capacity = a.nextCapacity) ∨
     ((a.expandCapacity m).1 = .errAlloc ∧ (a.expandCapacity m).2.1 = a ∧
-      MemSame m (a.expandCapacity m).2.2 ∧ m.alloc.1 = false) ∨
+      MemSame m (a.expandCapacity m).2.2 ∧ m.alloc.1 = false ∧ ¬ a.AtLimit ∧ (a.expandCapacity m).2.2 = m.alloc.2) ∨
     ((a.expandCapacity m).1 = .errMaxCapacity ∧ (a.expandCapacity m).2.1 = a ∧
       (a.expandCapacity m).2.2 = m ∧ a.AtLimit) := by
   have hh := h
@@ -66,7 +69,11 @@ theorem expandCapacity_spec (a : ArraySized) (m : Mem) (h : a.Inv) :
       exact ⟨rfl, rfl, rfl, Or.inr hlim⟩
     · rw [if_neg hlim]
       have hgt := nextCapacity_gt a hh hc
-      generalize a.nextCapacity = nc at *
+      have hnl : ¬ a.AtLimit := by
+        intro hl; rcases hl with hl | hl
+        · exact hc hl
+        · exact hlim hl
+      generalize hnc : a.nextCapacity = nc at *
       have hncm : nc * a.dataLen ≤ CC_MAX_ELEMENTS := (Nat.le_div_iff_mul_le hdl).1 (by omega)
       rcases Bool.eq_false_or_eq_true m.alloc.1 with hal | hal
       · left
@@ -77,7 +84,7 @@ theorem expandCapacity_spec (a : ArraySized) (m : Mem) (h : a.Inv) :
             decide (a.size * a.dataLen ≤ a.buf.length)) = true := by
           simp [fresh, hsl, hsl2]
         rw [hchk]
-        refine ⟨trivial, ?_, ?_, trivial, trivial, trivial, hgt, ?_, trivial⟩
+        refine ⟨trivial, ?_, ?_, trivial, trivial, trivial, hgt, ?_, trivial, hnl, trivial⟩
         · unfold Inv; dsimp only
           exact ⟨hdl, by omega, by omega, by simp [fresh], hncm⟩
         · rw [abs_eq_elems, abs_eq_elems]
@@ -91,7 +98,7 @@ theorem expandCapacity_spec (a : ArraySized) (m : Mem) (h : a.Inv) :
         · simpa using memSame_alloc_free m hal
       · right; left
         have e := Mem.alloc_fst_false m hal
-        simp [MemSame, e, hal]
+        simp [MemSame, e, hal, hnl]
 
 /-- the common prologue of `add`/`add_at`: `if (size >= capacity) expand_capacity` -/
 def ensureRoom (a : ArraySized) (m : Mem) : Stat × ArraySized × Mem :=
@@ -102,23 +109,25 @@ theorem ensureRoom_spec (a : ArraySized) (m : Mem) (h : a.Inv) :
       (a.ensureRoom m).2.1.abs = a.abs ∧ (a.ensureRoom m).2.1.size = a.size ∧
       (a.ensureRoom m).2.1.dataLen = a.dataLen ∧ (a.ensureRoom m).2.1.grow = a.grow ∧
       a.capacity ≤ (a.ensureRoom m).2.1.capacity ∧ a.size < (a.ensureRoom m).2.1.capacity ∧
-      MemSame m (a.ensureRoom m).2.2) ∨
+      MemSame m (a.ensureRoom m).2.2 ∧ (a.size = a.capacity → m.alloc.1 = true ∧ ¬ a.AtLimit)) ∨
     (((a.ensureRoom m).1 = .errAlloc ∨ (a.ensureRoom m).1 = .errMaxCapacity) ∧ (a.ensureRoom m).2.1 = a ∧
       MemSame m (a.ensureRoom m).2.2 ∧ a.size = a.capacity ∧
       ((a.ensureRoom m).1 = .errAlloc → m.alloc.1 = false) ∧
-      ((a.ensureRoom m).1 = .errMaxCapacity → a.AtLimit)) := by
+      ((a.ensureRoom m).1 = .errMaxCapacity → a.AtLimit) ∧
+      ((a.ensureRoom m).1 = .errAlloc → ¬ a.AtLimit)) := by
   unfold ensureRoom
   by_cases hfull : a.size ≥ a.capacity
   · rw [if_pos hfull]
     have hsz := h.2.2.1
-    rcases expandCapacity_spec a m h with ⟨h1, h2, h3, h4, h5, h6, h7, h8, _⟩ | ⟨h1, h2, h3, h4⟩ | ⟨h1, h2, h3, h4⟩
-    · left; exact ⟨h1, h2, h3, h4, h5, h6, by omega, by omega, h8⟩
-    · right; exact ⟨Or.inl h1, h2, h3, by omega, fun _ => h4, (fun hh => by rw [h1] at hh; cases hh)⟩
+    rcases expandCapacity_spec a m h with ⟨h1, h2, h3, h4, h5, h6, h7, h8, h9, h10, _⟩ | ⟨h1, h2, h3, h4, h5, _⟩ | ⟨h1, h2, h3, h4⟩
+    · left; exact ⟨h1, h2, h3, h4, h5, h6, by omega, by omega, h8, fun _ => ⟨h9, h10⟩⟩
+    · right; exact ⟨Or.inl h1, h2, h3, by omega, fun _ => h4, (fun hh => by rw [h1] at hh; cases hh), fun _ => h5⟩
     · right; exact ⟨Or.inr h1, h2, (by rw [h3]; exact MemSame.refl m), by omega,
-        (fun hh => by rw [h1] at hh; cases hh), fun _ => h4⟩
+        (fun hh => by rw [h1] at hh; cases hh), (fun _ => h4), (fun hh => by rw [h1] at hh; cases hh)⟩
   · rw [if_neg hfull]
     left
-    exact ⟨rfl, h, rfl, rfl, rfl, rfl, Nat.le_refl _, (by dsimp only; omega), MemSame.refl m⟩
+    exact ⟨rfl, h, rfl, rfl, rfl, rfl, Nat.le_refl _, (by dsimp only; omega), MemSame.refl m,
+      (fun hh => by omega)⟩
 
 /-! ### stores of whole elements -/
 theorem elems_store (b e : Buf Nat) (dl i n cap : Nat) (he : e.length = dl) (hn : n ≤ cap)
@@ -154,13 +163,15 @@ theorem add_spec (a : ArraySized) (e : Buf Nat) (m : Mem) (h : a.Inv)
     (he : e.length = a.dataLen) :
     ((a.add e m).1 = .ok ∧ (a.add e m).2.1.Inv ∧ (a.add e m).2.1.abs = a.abs ++ [e] ∧
       (a.add e m).2.1.dataLen = a.dataLen ∧ (a.add e m).2.1.grow = a.grow ∧
-      a.capacity ≤ (a.add e m).2.1.capacity ∧ MemSame m (a.add e m).2.2) ∨
+      a.capacity ≤ (a.add e m).2.1.capacity ∧ MemSame m (a.add e m).2.2 ∧
+      (a.size = a.capacity → m.alloc.1 = true ∧ ¬ a.AtLimit)) ∨
     (((a.add e m).1 = .errAlloc ∨ (a.add e m).1 = .errMaxCapacity) ∧ (a.add e m).2.1 = a ∧
       MemSame m (a.add e m).2.2 ∧ a.size = a.capacity ∧
       ((a.add e m).1 = .errAlloc → m.alloc.1 = false) ∧
-      ((a.add e m).1 = .errMaxCapacity → a.AtLimit)) := by
+      ((a.add e m).1 = .errMaxCapacity → a.AtLimit) ∧
+      ((a.add e m).1 = .errAlloc → ¬ a.AtLimit)) := by
   rw [add_eq]
-  rcases ensureRoom_spec a m h with ⟨h1, h2, h3, h4, h5, h6, h7, h8, h9⟩ | ⟨h1, h2, h3, h4, h5, h6⟩
+  rcases ensureRoom_spec a m h with ⟨h1, h2, h3, h4, h5, h6, h7, h8, h9, h10⟩ | ⟨h1, h2, h3, h4, h5, h6, h7⟩
   · left
     generalize a.ensureRoom m = r at *
     obtain ⟨st, a', m'⟩ := r
@@ -169,7 +180,7 @@ theorem add_spec (a : ArraySized) (e : Buf Nat) (m : Mem) (h : a.Inv)
     simp only [ne_eq, not_true_eq_false, if_false]
     have hslot := slot_in a' h2 a'.size (by omega)
     rw [decide_eq_true hslot]
-    refine ⟨trivial, ?_, ?_, h5, h6, h7, h9⟩
+    refine ⟨trivial, ?_, ?_, h5, h6, h7, h9, h10⟩
     · obtain ⟨i1, i2, i3, i4, i5⟩ := h2
       exact ⟨i1, i2, by dsimp only; omega, by simpa using i4, i5⟩
     · rw [abs_eq_elems, ← h3, abs_eq_elems]
@@ -182,7 +193,7 @@ theorem add_spec (a : ArraySized) (e : Buf Nat) (m : Mem) (h : a.Inv)
     have hne : (a.ensureRoom m).1 ≠ .ok := by
       rcases h1 with h1 | h1 <;> rw [h1] <;> decide
     rw [if_pos hne]
-    exact ⟨h1, h2, h3, h4, h5, h6⟩
+    exact ⟨h1, h2, h3, h4, h5, h6, h7⟩
 
 /-! ### add_at -/
 /-- opening a gap at `i` (memmove of the tail one slot up) and storing `e` there is `insertIdx` -/
@@ -236,11 +247,13 @@ theorem addAt_spec (a : ArraySized) (e : Buf Nat) (index : Nat) (m : Mem) (h : a
     ((a.addAt e index m).1 = .ok ∧ (a.addAt e index m).2.1.Inv ∧
       (a.addAt e index m).2.1.abs = a.abs.insertIdx index e ∧
       (a.addAt e index m).2.1.dataLen = a.dataLen ∧ (a.addAt e index m).2.1.grow = a.grow ∧
-      a.capacity ≤ (a.addAt e index m).2.1.capacity ∧ MemSame m (a.addAt e index m).2.2) ∨
+      a.capacity ≤ (a.addAt e index m).2.1.capacity ∧ MemSame m (a.addAt e index m).2.2 ∧
+      (a.size = a.capacity → m.alloc.1 = true ∧ ¬ a.AtLimit)) ∨
     (((a.addAt e index m).1 = .errAlloc ∨ (a.addAt e index m).1 = .errMaxCapacity) ∧
       (a.addAt e index m).2.1 = a ∧ MemSame m (a.addAt e index m).2.2 ∧ a.size = a.capacity ∧
       ((a.addAt e index m).1 = .errAlloc → m.alloc.1 = false) ∧
-      ((a.addAt e index m).1 = .errMaxCapacity → a.AtLimit)) := by
+      ((a.addAt e index m).1 = .errMaxCapacity → a.AtLimit) ∧
+      ((a.addAt e index m).1 = .errAlloc → ¬ a.AtLimit)) := by
   by_cases hend : index = a.size
   · have : a.addAt e index m = a.add e m := by unfold addAt; rw [if_pos hend]
     rw [this]
@@ -252,7 +265,7 @@ theorem addAt_spec (a : ArraySized) (e : Buf Nat) (index : Nat) (m : Mem) (h : a
     exact add_spec a e m h he
   · have hlt : index < a.size := by omega
     rw [addAt_eq_mid a e index m hlt]
-    rcases ensureRoom_spec a m h with ⟨h1, h2, h3, h4, h5, h6, h7, h8, h9⟩ | ⟨h1, h2, h3, h4, h5, h6⟩
+    rcases ensureRoom_spec a m h with ⟨h1, h2, h3, h4, h5, h6, h7, h8, h9, h10⟩ | ⟨h1, h2, h3, h4, h5, h6, h7⟩
     · left
       generalize a.ensureRoom m = r at *
       obtain ⟨st, a', m'⟩ := r
@@ -274,7 +287,7 @@ theorem addAt_spec (a : ArraySized) (e : Buf Nat) (index : Nat) (m : Mem) (h : a
           (a'.buf.memmove (a'.dataLen * (index + 1)) (a'.dataLen * index) ((a'.size - index) * a'.dataLen)).length) = true := by
         simpa using s2
       rw [c2]
-      refine ⟨trivial, ?_, ?_, h5, h6, h7, h9⟩
+      refine ⟨trivial, ?_, ?_, h5, h6, h7, h9, h10⟩
       · exact ⟨i1, i2, by dsimp only; omega, by simpa using i4, i5⟩
       · rw [abs_eq_elems, ← h3, abs_eq_elems]
         dsimp only
@@ -283,7 +296,7 @@ theorem addAt_spec (a : ArraySized) (e : Buf Nat) (index : Nat) (m : Mem) (h : a
       have hne : (a.ensureRoom m).1 ≠ .ok := by
         rcases h1 with h1 | h1 <;> rw [h1] <;> decide
       rw [if_pos hne]
-      exact ⟨h1, h2, h3, h4, h5, h6⟩
+      exact ⟨h1, h2, h3, h4, h5, h6, h7⟩
 
 /-! ### replace_at -/
 theorem replaceAt_inert (a : ArraySized) (e : Buf Nat) (index : Nat) (m : Mem) (hi : a.size ≤ index) :
